@@ -13,18 +13,90 @@ TEXT = {
             "millions of adaptive histories and a complete small-scope enumeration; the same driver runs under Miri (quick) and ASan (thorough). "
             "Right level: the property quantifies over histories/configurations of a small data structure with unsafe internals, which is exactly what "
             "a model-based online checker plus sanitizers observes."),
-    "C03": ("Exact sequential model of the stated tie rule checked online against CQueue (queue level), against Runtime event programs and against "
-            "net-level message bursts, plus metamorphic replays (other queue parameters, unrelated events, allocation history) and a complete "
-            "small-scope enumeration."),
+    "C02": ("Every clock write is observed at its single writer (hook) and every handler compares SimTime::now() with the timestamp it was scheduled "
+            "for, over generated event forests x start times x queue parameters, including attempted insertions in the past under catch_unwind; a "
+            "reference model predicts the whole dispatch sequence. Held on the executions produced, on both event-set backends at thorough."),
+    "C03": ("Exact sequential model of the stated tie rule checked online against CQueue (queue level), against Runtime event programs and, at the net "
+            "level, order invariants that follow from the rule for any internal event structure; plus metamorphic replays (other queue parameters, "
+            "unrelated events, allocation history) and a complete small-scope enumeration."),
+    "C04": ("Differential runs of the real simulator: the same (model, seed) executed twice back to back, after a foreign simulation, and in a separate "
+            "process with a different heap layout must give byte-identical traces (deliveries, draws, select branches, timer completions, final "
+            "counters); models are counted only if their trace changes with the seed. Reproducibility is a relation between executions, which only "
+            "running them decides."),
+    "C05": ("Generated timer scripts run on the real async time driver; every await logs virtual time and outcome and is compared with a reference "
+            "interpreter in virtual time (equal, never earlier or later), plus the slot invariant at a hook after every module event (a live timer "
+            "always has a wake-up at or before its deadline). Small scripts also under Miri."),
+    "C06": ("Tasks log SimTime::now() right after every await whose enabling instant is known by construction; workloads push the per-instant "
+            "population across the executor budgets (61 polls, coop budget) for tokio::spawn and spawn_local, through timers, notify, channels, "
+            "semaphores, join handles and messages consumed by processing elements. Decided in virtual time only."),
+    "C07": ("Every offer and arrival on a real channel is logged together with the channel's own state (hook) and judged by an independent channel "
+            "automaton with exact integer arithmetic: exactly-once, drop rules, busy period, FIFO start instants, arrival = start + tx + latency "
+            "(+jitter range), order at zero jitter, nothing stuck at the end; random traffic plus an enumerated limit-boundary grid."),
+    "C08": ("Declared gate chains are the reference: structure API (kinds, walks from both ends, idempotence, third-peer rejection) and every "
+            "delivery (exactly once, right module, exact time, header ids, last gate) are compared with it, with the connect calls issued in every "
+            "permutation / orientation for short chains."),
+    "C09": ("Fault enumeration over shutdown / restart requests and their placements (handler or task, restart never / delayed / at an instant, "
+            "requests while down, coinciding victims, arrivals on boundary instants): one global callback log is judged against the statement "
+            "evaluated over the down intervals - nothing of the victim between reset and restart, start stages once at the restart instant, "
+            "in-flight and transit traffic dropped iff the victim is down."),
+    "C10": ("Differential + model: stepped executions of event programs (every composition into <= 3 steps and every until-cut for small programs) "
+            "against the uninterrupted run and an exact reference of per-step counts, paused time, remaining and dispatched, with external adds while "
+            "paused. Both backends at thorough."),
+    "C11": ("An independent limit-tree evaluator predicts the stop index on the sequence of the unlimited run; the limited run of the real runtime "
+            "must have handled exactly that prefix, report that count and end time, and return exactly the pending rest as remaining (multiset with "
+            "timestamps); every count and every time gap for small programs, random And/Or trees otherwise."),
+    "C12": ("The declared module tree alone predicts the start sequence (stage-major x depth-first pre-order, siblings in creation order), the "
+            "tear-down set, and what current()/parent()/child() show inside callbacks; every valid insertion order for small trees; builder "
+            "rejections under catch_unwind; ObjectPath against string splitting."),
+    "C13": ("Fault enumeration: every single panic placement (module x callback kind x occurrence x stereotype, joined-task steps) and pairs, each "
+            "executed as panic (A) and as fall-silent (B) twin of the same model; A must return, attribute exactly the uncaught faults, leave every "
+            "other module's log equal to B, deactivate the faulty module, leave the statics clean and let a follow-up simulation reproduce its "
+            "reference trace. A dead worker process counts as violation."),
+    "C14": ("All processing hooks, handlers and wake-ups log into one sequence that is parsed by a bracket grammar per module event (start order, "
+            "incoming chain with tags, consumer stops the chain, handler iff not consumed, ends in reverse order, no foreign hook inside), for "
+            "message, start, restart, wake-up and tear-down events; messages emitted from hooks must arrive in program order."),
     "C15": ("Allocator shadow map fed by an observer hook (every allocation: aligned, inside one owned page, disjoint from live regions; exact frees; "
             "pages released once), bit patterns of every fetched payload and an exactly-once drop registry over ten payload types and six page sizes; "
             "the same histories under Miri, ASan and valgrind memcheck for out-of-bounds / use-after-free / double free of heap-owning payloads."),
+    "C16": ("Shadow typed model per message over 29 body types (layout twins, zero-sized, non-clonable, derived structs / enums / generics) checked "
+            "after every operation of random create / replace / clone / probe / cast / drop sequences, identity registry for exactly-once drops, "
+            "hand-written length reference tied to channel transmission times; the same sequences under Miri and ASan."),
+    "C17": ("Independent matcher over dotted keys with wildcards decides for every (configuration, module path) the exact key set and admissible "
+            "values; compared with Cfg directly and with a real simulation builder in both include orders; typed read sequences pin the stored "
+            "type. One known finding is recorded by signature."),
+    "C18": ("Grammar-based generator of valid descriptions, an independent reference elaborator (inheritance, clusters, generics, connection "
+            "expansion) and the built simulation observed through its public API (modules with registered symbols, gate clusters, both connection "
+            "slots with link parameters) must agree exactly; 23 single-point mutation operators must never crash and structural mutants must be "
+            "rejected with a descriptive error. ASan at thorough (YAML parser included)."),
+    "C19": ("Reference digraph from the declared wiring plus BFS decides node / edge multisets of the global, spanned (every root), node- and "
+            "edge-filtered views, connected / bidirectional, and that every dijkstra entry is the first edge of a minimum-hop path (every source)."),
+    "C20": ("Identity tokens in module state, task captures, message bodies (event set, channel queues, remaining list), processing elements and "
+            "probes: after dropping whatever the stop point returned every token was dropped exactly once and none is alive, the process-global "
+            "statics are clean and a follow-up simulation reproduces its fresh-process trace; stop points include every event-limit prefix of small "
+            "models. ASan and (reduced) Miri at thorough."),
 }
 
 TECHNIQUE = {
     "C01": "model-based runtime monitor + structural invariant hook + Miri/ASan",
-    "C03": "exact-order reference model monitor + metamorphic replays",
+    "C02": "clock-writer hook + handler-side assertions + reference model",
+    "C03": "exact-order reference model monitor + metamorphic replays + net-level order invariants",
+    "C04": "differential trace comparison (in-process and cross-process)",
+    "C05": "reference interpreter in virtual time + timer-slot invariant hook + Miri",
+    "C06": "enabling-instant assertions over task storms",
+    "C07": "offline check of offer/arrival logs against an exact channel automaton + channel-state hook",
+    "C08": "declared-structure reference + delivery log checker, enumerated connect orders",
+    "C09": "fault enumeration (shutdown/restart placements) + global callback log checked against down intervals",
+    "C10": "differential (stepped vs uninterrupted) + exact step model",
+    "C11": "independent limit evaluator over the unlimited run's sequence",
+    "C12": "callback-order log checked against the declared tree",
+    "C13": "fault enumeration (panic placements) + panic/silent twin differential + follow-up simulation",
+    "C14": "bracket-grammar checker over the hook log",
     "C15": "allocator shadow-map monitor (observer hook) + drop registry + Miri/ASan/memcheck",
+    "C16": "shadow typed model + identity registry + Miri/ASan",
+    "C17": "independent matcher as reference model",
+    "C18": "generator + reference elaborator + mutation operators (no-crash oracle) + ASan",
+    "C19": "reference digraph + BFS oracle",
+    "C20": "identity-token registry (exactly-once drop) + statics hook + follow-up simulation + ASan/Miri",
 }
 
 NOT_YET = "monitor not built yet in this round (see DESIGN.md section 5 for the design); not claimed until its check exists"
@@ -77,7 +149,7 @@ def main():
         "checks": checks,
         "not_applicable": [{"property_id": pid, "reason": NOT_YET} for pid in ALL if pid not in PROPERTIES],
         "notes": "Verdicts are three-valued: exit 0 held on what was observed (coverage floor met), exit 1 + VIOLATION line, exit 3 + INCONCLUSIVE line. "
-                 "KNOWN_FINDINGS.json lists genuine defects (fixed: ten fix: commits in /repo; known: printed as KNOWN-FINDING).",
+                 "KNOWN_FINDINGS.json lists genuine defects (fixed: fourteen fix: commits in /repo; known: one C17 shape, printed as KNOWN-FINDING).",
     }
     with open(os.path.join(VERIF, "MANIFEST.json"), "w") as f:
         json.dump(manifest, f, indent=1)
